@@ -57,7 +57,10 @@ fn main() {
     for ops in CASES.iter() {
         let d = desc_of(ops.id);
         let mut ev = Vec::new();
-        zoo::run_case(ops, d, &mut rng_of(ops.id), &mut ev, &mut st, 1);
+        // last resort: the harness must not die from the behaviour of the code under test
+        if std::panic::catch_unwind(std::panic::AssertUnwindSafe(|| zoo::run_case(ops, d, &mut rng_of(ops.id), &mut ev, &mut st, 1))).is_err() {
+            ev.push(json!({"ev":"died","case":ops.id}));
+        }
         if samples.len() < 2 && (ops.id as u64 + seed) % 97 == 0 {
             samples.push(json!({"ty": d.ty, "origin": d.origin, "events": ev.iter().skip(1).take(4).collect::<Vec<_>>()}));
         }
@@ -90,7 +93,7 @@ fn main() {
     w.flush().unwrap();
     println!(
         "{}",
-        json!({"hash": GEN_HASH, "cases": st.cases, "events": st.events, "fetch_runs": st.fetch_runs, "setup_runs": st.setup_runs, "exec_runs": st.exec_runs, "second_pass": st.second_pass, "twin_blocks": st.twin_blocks,
+        json!({"hash": GEN_HASH, "cases": st.cases, "events": st.events, "fetch_runs": st.fetch_runs, "setup_runs": st.setup_runs, "exec_runs": st.exec_runs, "fetch_normal": st.fetch_ctx[0], "fetch_dropped_by_unwinding": st.fetch_ctx[1], "fetch_in_drop_while_unwinding": st.fetch_ctx[2], "second_pass": st.second_pass, "twin_blocks": st.twin_blocks,
                "fetch_ok": st.fetch_ok, "fetch_missing": st.fetch_missing, "fetch_borrow": st.fetch_borrow,
                "fetch_other": st.fetch_other, "with_held": st.with_held, "model_runs": st.model_runs,
                "model_matched": st.model_matched, "model_mismatch": st.model_mismatch,
